@@ -79,6 +79,15 @@ pub fn oc(f: impl FnOnce() -> ValidationResult) -> Oc {
     }
 }
 
+/// a helper of the implementation called outside a rule function: a panic there is recorded as a panicking
+/// pseudo-rule (so that it becomes an ORACLE_FAIL) and the default is used
+fn gd<T>(f: impl FnOnce() -> T, default: T, checks: &mut Vec<(&'static str, Oc)>, name: &'static str) -> T {
+    match guard_total(f) {
+        Out::Ok(v) => v,
+        Out::Panic(m) => { checks.push((name, Oc::Panic(format!("{}@{}@{}", msg_class(&m), last_site(), last_loc())))); default }
+        Out::Err(_) => default,
+    }
+}
 pub struct Obs {
     pub e2e: Oc,
     /// (rule function name, outcome), in the order of the era validator
@@ -101,7 +110,7 @@ pub fn observe(tx: &AnyTx, metx: &MultiEraTx, utxos: &UTxOs, env: &Environment, 
         (AnyTx::Byron(p), PP::Byron(pp)) => {
             use byron::verif as v;
             let t = &p.transaction;
-            size = v::get_tx_size(p);
+            size = gd(|| v::get_tx_size(p), 0, &mut checks, "get_tx_size");
             checks.push(("check_ins_not_empty", oc(|| v::check_ins_not_empty(t))));
             checks.push(("check_outs_not_empty", oc(|| v::check_outs_not_empty(t))));
             checks.push(("check_ins_in_utxos", oc(|| v::check_ins_in_utxos(t, utxos))));
@@ -113,7 +122,7 @@ pub fn observe(tx: &AnyTx, metx: &MultiEraTx, utxos: &UTxOs, env: &Environment, 
         (AnyTx::AC(t, era), PP::Shelley(pp)) if matches!(era, Era::Shelley | Era::Allegra | Era::Mary) => {
             use shelley_ma::verif as v;
             let b = &t.transaction_body; let w = &t.transaction_witness_set;
-            let sz = get_alonzo_comp_tx_size(t); size = sz as u64;
+            let sz = gd(|| get_alonzo_comp_tx_size(t), 0, &mut checks, "get_tx_size"); size = sz as u64;
             let acnt0 = AccountState::default();
             let acnt = env.acnt.as_ref().unwrap_or(&acnt0);
             checks.push(("check_ins_not_empty", oc(|| v::check_ins_not_empty(b))));
@@ -137,8 +146,8 @@ pub fn observe(tx: &AnyTx, metx: &MultiEraTx, utxos: &UTxOs, env: &Environment, 
         (AnyTx::AC(t, Era::Alonzo), PP::Alonzo(pp)) => {
             use alonzo::verif as v;
             let b = &t.transaction_body;
-            let sz = get_alonzo_comp_tx_size(t); size = sz as u64;
-            plutus_present = v::presence_of_plutus_scripts(t);
+            let sz = gd(|| get_alonzo_comp_tx_size(t), 0, &mut checks, "get_tx_size"); size = sz as u64;
+            plutus_present = gd(|| v::presence_of_plutus_scripts(t), false, &mut checks, "presence_of_plutus_scripts");
             checks.push(("check_ins_not_empty", oc(|| v::check_ins_not_empty(b))));
             checks.push(("check_ins_and_collateral_in_utxos", oc(|| v::check_ins_and_collateral_in_utxos(b, utxos))));
             checks.push(("check_tx_validity_interval", oc(|| v::check_tx_validity_interval(b, t, slot))));
@@ -158,8 +167,8 @@ pub fn observe(tx: &AnyTx, metx: &MultiEraTx, utxos: &UTxOs, env: &Environment, 
         (AnyTx::Babbage(t), PP::Babbage(pp)) => {
             use babbage::verif as v;
             let b = &t.transaction_body;
-            plutus_present = v::presence_of_plutus_scripts(t);
-            match get_babbage_tx_size(t) {
+            plutus_present = gd(|| v::presence_of_plutus_scripts(t), false, &mut checks, "presence_of_plutus_scripts");
+            match gd(|| get_babbage_tx_size(t), None, &mut checks, "get_tx_size") {
                 None => checks.push(("get_tx_size", Oc::Err(400))),
                 Some(sz) => {
                     size = sz as u64;
@@ -185,8 +194,8 @@ pub fn observe(tx: &AnyTx, metx: &MultiEraTx, utxos: &UTxOs, env: &Environment, 
         (AnyTx::Conway(t), PP::Conway(pp)) => {
             use conway::verif as v;
             let b = &t.transaction_body;
-            plutus_present = v::presence_of_plutus_scripts(t);
-            match get_conway_tx_size(t) {
+            plutus_present = gd(|| v::presence_of_plutus_scripts(t), false, &mut checks, "presence_of_plutus_scripts");
+            match gd(|| get_conway_tx_size(t), None, &mut checks, "get_tx_size") {
                 None => checks.push(("get_tx_size", Oc::Err(400))),
                 Some(sz) => {
                     size = sz as u64;
